@@ -138,6 +138,16 @@ def obligations(tier):
             if name.startswith('gather') and not (quick and name in ('gather_float', 'gather_double')):
                 for dl in ([1] if quick else [1, 3]):
                     o.append(kern(name, isa, W + 1, nb(W + 1), fn, scalar, dom, ['-DDL=%d' % dl], tag='/dl%d' % dl))
+    # ---- scale regime of the reduction kernel (symx): long, almost concrete arrays (added after seeded C15-sse-count-nonnull-lane-wrap,
+    #      whose per-lane 16-bit counters only go wrong beyond 8 * 32768 levels - far outside the unrolled counts above)
+    from e2 import E2
+    for pat, pn in ((0, 'all-non-null'), (1, 'one-lane')) if quick else ((0, 'all-non-null'), (1, 'one-lane'), (2, 'alternating')):
+        for nn, nt in ((8 * 32769 + 3, '262155'),) if quick else ((8 * 32769 + 3, '262155'), (8 * 65537 + 5, '524301')):
+            if pat == 2 and nt != '262155': continue
+            o.append(E2('count_non_nulls/sse/scale/n%s/%s' % (nt, pn), 'harness/e2/c15_scale.c', ['src/simd/x86/sse_ops.c'], ['-DN=%d' % nn, '-DPATTERN=%d' % pat],
+                        timeout=800, max_steps=400_000_000, max_paths=100, validate=2,
+                        bounds='%s int16 levels, concrete pattern "%s" except 4 symbolic levels (first, around the 8*32768-th, last); max_def_level 3; result == scalar definition' % (nt, pn),
+                        functions=['carquet_sse_count_non_nulls'], stubs=['x86 intrinsics: plain-C models (models/immintrin), validated against the host CPU by setup.sh']))
     # ---- CRC32C (SSE4.2 only).  The direct miter (byte-table code vs bit-serial model of the crc32 instructions) gets a verdict only
     # for very short inputs (n=2: 30 s, n=4: 130 s, n>=9: none in 300 s on any back end), so beyond that the obligation is split into
     # two lemmas against the bit-serial definition of CRC-32C (see KERNEL=crc32c_ref in the harness): sse-raw/n (kernel == raw CRC of n
